@@ -22,9 +22,18 @@ const (
 )
 
 // harnessFiles returns virtual path -> content for the given mode ("sym" or "native").
+// droppedUnits: unit-harness files (u_*.go, the only harness files that name
+// unexported identifiers of the library) that did not type-check against the
+// current /repo working tree, with the first error; they are left out of the
+// symbolic and the native build and their jobs are reported as SKIPPED-UNIT.
+var droppedUnits = map[string]string{}
+
 func harnessFiles(verifDir, mode string) map[string][]byte {
 	ov := map[string][]byte{}
 	keep := func(base string) bool {
+		if _, dropped := droppedUnits[base]; dropped {
+			return false
+		}
 		switch {
 		case strings.HasSuffix(base, "_sym.go"):
 			return mode == "sym"
@@ -77,6 +86,9 @@ func harnessFiles(verifDir, mode string) map[string][]byte {
 			fs, _ := filepath.Glob(filepath.Join(pk.dir, "*.go"))
 			for _, f := range fs {
 				if strings.HasSuffix(f, "_test.go") {
+					continue
+				}
+				if _, dropped := droppedUnits[filepath.Base(f)]; dropped {
 					continue
 				}
 				b, _ := os.ReadFile(f)
